@@ -435,6 +435,11 @@ def r03_6(ctx):
 
 
 def run(ctx):
+    # under spawn / forkserver the worker object reaches the child by pickling: what __reduce__ writes must be what the
+    # rebuild callable binds, position by position (a handshake queue that is dropped = a worker that never waits for the verdict)
+    from .reduce import r12_1 as _r12_1
+    from ..report import Only as _Only
+    _r12_1(_Only(ctx, ('Worker.__reduce__',), floor=1, doc='Worker.__reduce__ and its rebuild callable agree position by position'), modules=('pool',))
     A = WorkloopAnchors(ctx)
     r03_1(ctx, A)
     r03_2(ctx, A)
